@@ -231,6 +231,57 @@ class RefMax(RefMin):
     better = "gt"
 
 
+class RefPass(Ref):
+    init = ()
+
+    def next(self, st, inp):
+        return (("emit", "item"),), st, False
+
+
+class RefAll(Ref):
+    """handlers of all(): they sit behind filter(!p).take(1), so any item is a counter-example"""
+    init = ()
+
+    def next(self, st, inp):
+        return (("emit", "const:false"), ("complete",)), st, True
+
+    def complete(self, st):
+        return (("emit", "const:true"), ("complete",))
+
+
+class RefMaterialize(Ref):
+    init = ()
+
+    def next(self, st, inp):
+        return (("emit", "Next(item)"),), st, False
+
+    def complete(self, st):
+        return (("emit", "Complete()"), ("complete",))
+
+    def error(self, st):
+        return (("emit", "Error(error)"), ("complete",))
+
+
+class RefDematerialize(Ref):
+    init = ()
+    inputs = ("variant",)
+
+    def next(self, st, inp):
+        v = inp["variant"]
+        if v == "Next":
+            return (("emit", "item.Next"),), st, False
+        if v == "Error":
+            return (("error",),), st, True
+        return (("complete",),), st, True
+
+
+class RefMapToAny(Ref):
+    init = ()
+
+    def next(self, st, inp):
+        return (("emit", "boxed(item)"),), st, False
+
+
 class ANY_OF(tuple):
     """several acceptable traces"""
     def __new__(cls, *alts):
@@ -254,6 +305,12 @@ OPERATORS = {
     "operators::sum_and_count::SumAndCount": ("sum_and_count", RefSumAndCount),
     "operators::min::Min": ("min", RefMin),
     "operators::max::Max": ("max", RefMax),
+    "operators::all::All": ("all", RefAll),
+    "operators::element_at::ElementAt": ("element_at", RefPass),
+    "operators::start_with::StartWith": ("start_with", RefPass),
+    "operators::materialize::Materialize": ("materialize", RefMaterialize),
+    "operators::dematerialize::Dematerialize": ("dematerialize", RefDematerialize),
+    "operators::map_to_any::MapToAny": ("map_to_any", RefMapToAny),
 }
 
 
@@ -339,6 +396,8 @@ def _map_inputs(ref, syms, combo):
             inp["eq"] = v
         elif s in ("in:lt", "in:gt"):
             inp[s[3:]] = v
+        elif s == "in:variant":
+            inp["variant"] = ref.variant_names[v] if getattr(ref, "variant_names", None) else v
     return inp
 
 
@@ -382,7 +441,8 @@ def _explore(r, impl, ref, root, name, hb):
     steps = 0
     nsyms = impl.input_syms("N")
     want = set(ref.inputs)
-    have = {"pred" if s == "in:pred" else (s[3:] if s in ("in:lt", "in:gt") else "eq") for s in nsyms}
+    have = {"pred" if s == "in:pred" else (s[3:] if s in ("in:lt", "in:gt", "in:variant") else "eq") for s in nsyms}
+    ref.variant_names = impl.S["N"]._item_variants()
     if want & {"lt", "gt"} and have & {"lt", "gt"}:
         have |= {"lt", "gt"}         # one ordered comparison is enough to decide a minimum / maximum
     if want - have:
@@ -403,11 +463,14 @@ def _explore(r, impl, ref, root, name, hb):
                                impl.S[role].b)
             if depth == DEPTH:
                 continue
-            for combo in product((False, True), repeat=len(nsyms)):
+            domains = [tuple(range(len(impl.S["N"]._item_variants() or ()))) if s_ == "in:variant" else (False, True) for s_ in nsyms]
+            for combo in product(*domains):
                 inputs = dict(zip(nsyms, combo))
                 base = _map_inputs(ref, nsyms, combo)
                 # every valuation of the reference's inputs consistent with what the implementation asked
-                free = [k for k in ref.inputs if k not in base]
+                free = [k for k in ref.inputs if k not in base and k != "variant"]
+                if "variant" in ref.inputs and "variant" not in base:
+                    base["variant"] = None
                 ref_inputs = []
                 for vals in product((False, True), repeat=len(free)):
                     d2 = dict(base)
@@ -452,3 +515,157 @@ def _hist(h):
 def _shape(h):
     # a stable, short key for the kind of deviation (no line numbers, no symbols)
     return "/".join(h[-2:]) if h else "start"
+
+
+# ---------------------------------------------------------------------------- creation functions
+import re as _re
+
+CREATORS = {
+    # public fn -> (regular expression every path's effect string must match, effects at least one path must show)
+    "observables::just::just": (r"^emit\(captured\) complete$", ["emit(captured)", "complete"]),
+    "observables::empty::empty": (r"^complete$", ["complete"]),
+    "observables::never::never": (r"^$", []),
+    "observables::error::error": (r"^error$", ["error"]),
+    "observables::start::start": (r"^user_fn\(\(\)\) emit\(mapped\) complete$", ["emit(mapped)", "complete"]),
+    "observables::defer::defer": (r"^user_fn\(\(\)\) subscribe\(mapped\)$", ["subscribe(mapped)"]),
+    # loops are cut after two rounds (`loop`); a path may stop early only because the subscriber left
+    "observables::from_iter::from_iter": (r"^(emit\(\w+\) ){0,3}(complete|loop)?$", ["emit", "complete"]),
+    "observables::range::range": (r"^(emit\(\w+\) ){0,3}(complete|loop)?$", ["emit", "complete"]),
+    "observables::repeat::repeat": (r"^(emit\(captured\) ){0,3}(loop)?$", ["emit(captured)"]),
+}
+
+
+def creators_rule(P, E, H):
+    r = RuleResult("SRC", "creation functions: every path of the per-subscribe body performs exactly the emissions / terminal the "
+                          "function's definition lists, in that order")
+    found = set()
+    for c in E.sites["create"]:
+        cl = c.arg_closure(0)
+        sb = P.bodies.get(cl) if cl else None
+        if sb is None:
+            continue
+        root = norm(sb.root)
+        if root not in CREATORS or root in found:
+            continue
+        found.add(root)
+        rx, need = CREATORS[root]
+        try:
+            S = Summary(P, E, sb, item_param=99, item_kind="none", sink_param=2)
+        except Undecided as e:
+            r.error("SRC: %s not decidable: %s" % (root, e))
+            continue
+        seen_fx = set()
+        ok_paths = 0
+        for p in S.paths:
+            tr = []
+            for x in p.trace:
+                if x[0] == "sink_next":
+                    tr.append("emit(%s)" % x[1])
+                elif x[0] in ("sink_complete", "sink_complete_force"):
+                    tr.append("complete")
+                elif x[0] == "sink_error":
+                    tr.append("error")
+                elif x[0] in ("user_fn", "subscribe"):
+                    tr.append("%s(%s)" % (x[0], x[1]))
+                elif x[0] in ("loop", "panic", "opaque"):
+                    tr.append(x[0])
+            line = " ".join(tr)
+            for t_ in tr:
+                seen_fx.add(t_)
+                seen_fx.add(t_.split("(")[0])
+            if not _re.match(rx, line + (" " if rx.startswith("^(emit") and line.endswith(")") else "")) and not _re.match(rx, line):
+                r.violate((root, "creation", _re.sub(r"\d+", "N", line) or "nothing"),
+                          "%s: a path of its per-subscribe body does [%s], which its definition does not allow" % (root.split("::")[-1], line), body=sb)
+            else:
+                ok_paths += 1
+        for n_ in need:
+            if n_ not in seen_fx:
+                r.violate((root, "creation", "never " + n_), "%s: no path of its per-subscribe body performs `%s`" % (root.split("::")[-1], n_), body=sb)
+        r.instance((root, "creation"), True, "%d paths, effects %s" % (len(S.paths), sorted(seen_fx)))
+    for root in CREATORS:
+        if root not in found:
+            r.error("SRC: anchor missing: Observable::create closure of %s" % root)
+    return r
+
+
+# ---------------------------------------------------------------------------- compositions
+def compose_rule(P, E, H):
+    """element_at(n) = take(n).last() with n passed through unchanged (the crate's asserted test pins the
+    1-based convention); all(p) filters with exactly the negation of p; start_with emits its prefix
+    before it subscribes the source."""
+    r = RuleResult("D-compose2", "compositions: element_at(n) = take(n).last(); all(p) = filter(!p).take(1) ..; start_with = prefix, then the source")
+    # element_at
+    nb = P.body("operators::element_at::ElementAt::new")
+    eb = P.body("operators::element_at::ElementAt::execute")
+    if nb is None or eb is None:
+        r.error("D-compose2: anchor missing: ElementAt::new / execute")
+    else:
+        calls = [c for c in nb.calls if c.path.endswith("operators::take::Take::new")]
+        r.instance(("operators::element_at::ElementAt", "take(n)"), True, "%d Take::new call(s)" % len(calls))
+        if len(calls) != 1:
+            r.violate(("operators::element_at::ElementAt", "not built on take"), "ElementAt::new does not build exactly one Take", body=nb)
+        for c in calls:
+            prov = nb.operand_prov(c.args[0])
+            if prov != frozenset([("param", 1, ())]):
+                r.violate(("operators::element_at::ElementAt", "take count is not the index itself"),
+                          "element_at(n) must be take(n).last() (1-based, as the crate's asserted test pins it): the count handed to "
+                          "Take::new is %s, not the parameter unchanged" % sorted(nb.term_name(t) for t in nb.value_sources(prov)), body=nb, line=c.line)
+        lasts = [c for b in [eb] + P.descendants(eb) for c in b.calls if c.local and c.name == "last"]
+        firsts = [c for b in [eb] + P.descendants(eb) for c in b.calls if c.local and c.name in ("first", "take_last", "skip", "skip_last")]
+        r.instance(("operators::element_at::ElementAt", "last()"), True, "%d last() call(s)" % len(lasts))
+        if len(lasts) != 1 or firsts:
+            r.violate(("operators::element_at::ElementAt", "not take(n).last()"), "ElementAt::execute does not end its chain in exactly one last()", body=eb)
+    # all: the closure handed to Filter::new returns the negation of the user's predicate
+    ab = P.body("operators::all::All::new")
+    if ab is None:
+        r.error("D-compose2: anchor missing: All::new")
+    else:
+        cls = [c.arg_closure(0) for c in ab.calls if c.path.endswith("operators::filter::Filter::new")]
+        cls = [P.bodies[c] for c in cls if c in P.bodies]
+        r.instance(("operators::all::All", "filter(!p)"), True, "%d filter predicate closure(s)" % len(cls))
+        if len(cls) != 1:
+            r.violate(("operators::all::All", "not built on filter"), "All::new does not build exactly one Filter from a closure", body=ab)
+        for cb in cls:
+            S = Summary(P, E, cb, item_param=2, item_kind="item")
+            for p_ in S.paths:
+                ret = p_.env.get(0)
+                ok = False
+                for val in (False, True):
+                    try:
+                        from rules_count import ev_bool
+                        sig = {"in:pred": val}
+                        if not all(ev_bool(e, sig) for e in p_.pc):
+                            continue
+                        ok = is_bool(ret) and ev_bool(ret, sig) == (not val)
+                        if not ok:
+                            r.violate(("operators::all::All", "filter predicate is not the negation"),
+                                      "all(p) looks for a counter-example: its filter must pass exactly the items for which p is false; "
+                                      "for p = %s the closure returns %s" % (str(val).lower(), _show_b(ret) if is_bool(ret) else "an unmodelled value"), body=cb)
+                    except (KeyError, Undecided):
+                        r.violate(("operators::all::All", "filter predicate is not the negation"), "the closure's result is not a function of p alone", body=cb)
+    # start_with: prefix first, then subscribe
+    sw = None
+    for c in E.sites["create"]:
+        cl = c.arg_closure(0)
+        sb = P.bodies.get(cl) if cl else None
+        if sb is not None and H.type_root(sb) == "operators::start_with::StartWith":
+            sw = sb
+    if sw is None:
+        r.error("D-compose2: anchor missing: StartWith source closure")
+    else:
+        S = Summary(P, E, sw, item_param=99, item_kind="none", sink_param=2)
+        saw_emit = saw_sub = False
+        for p_ in S.paths:
+            tr = [x[0] for x in p_.trace if x[0] in ("sink_next", "subscribe", "sink_complete", "sink_error", "loop")]
+            if "subscribe" in tr:
+                saw_sub = True
+                if "sink_next" in tr[tr.index("subscribe"):] or tr.count("subscribe") > 1:
+                    r.violate(("operators::start_with::StartWith", "prefix after the source"), "start_with emits prefix items after subscribing the source", body=sw)
+            if "sink_next" in tr:
+                saw_emit = True
+            if "sink_complete" in tr or "sink_error" in tr:
+                r.violate(("operators::start_with::StartWith", "terminates by itself"), "start_with's own body terminates the subscriber", body=sw)
+        r.instance(("operators::start_with::StartWith", "prefix then source"), True, "%d paths" % len(S.paths))
+        if not (saw_emit and saw_sub):
+            r.violate(("operators::start_with::StartWith", "prefix or source missing"), "start_with must emit its prefix and then subscribe the source", body=sw)
+    return r
